@@ -15,11 +15,11 @@ EXTRA = ['{ shift(D,L) : pshift(D,L) } 1 :- day(D). #minimize { L@L,D : shift(D,
 
 
 def corr(rng, quick):
-    return corr_sumagg.run(rng, 60 if quick else 2500, corpus_limit=60 if quick else None)
+    return corr_sumagg.run(rng, 120 if quick else 2500, corpus_limit=60 if quick else None)
 
 
 def corr2(rng, quick):
-    return corr_sumrewrite.run(rng, 60 if quick else 2500, corpus_limit=60 if quick else None)
+    return corr_sumrewrite.run(rng, 160 if quick else 2500, corpus_limit=60 if quick else None)
 
 
 def run(ctx) -> int:
